@@ -595,7 +595,7 @@ SPEC = {
     "model_targets": ["model/Schema.vo", "model/SchemaSpec.vo", "model/EsBuild.vo"],
     "module": "C19",
     "theorems": ["C19_builder_side", "C19_spellings_agree", "C19_query_refuted", "C19_nesting_refuted",
-                 "C19_typing_refuted", "C19_typing_partial", "C19_subfield_typing_partial",
+                 "C19_typing_refuted", "C19_typing_partial", "C19_typing_walk_partial", "C19_subfield_typing_partial",
                  "C19_not_analyzed_fields", "C19_object_fields", "C19_nested_spellings", "C19_object_spellings"],
     "correspond": correspond,
     "statement": "options m fed to the builder: both spellings of a mapped path give the same outcome, decided by "
